@@ -1,2 +1,62 @@
 import VsgModel
-def main : IO Unit := IO.println "ok"
+open Vsgm Vsgm.Wire
+
+def parseBool (s : String) : Bool := s == "1"
+
+def mkStep (rule kind fx se di rm he : String) : Trace.StepIn :=
+  { rule := rule, kind := kind, fixable := parseBool fx, sevError := parseBool se,
+    disabled := parseBool di, remap := parseBool rm, hasEdits := parseBool he,
+    edits := [], lines := [], pre := 0, suf := 0, mid := [] }
+
+def addEdit (s : Trace.StepIn) (a b ln ts : String) : Trace.StepIn :=
+  { s with edits := s.edits ++ [{ start := a.toNat!, stop := b.toNat!, new := decToks ts }], lines := s.lines ++ [ln.toNat!] }
+
+/-- trace mode: INIT / STEP / EDIT* / AFTER   (one reply line per AFTER) -/
+partial def traceLoop (h : IO.FS.Stream) (out : IO.FS.Stream) (st : List STok) (cur : Option Trace.StepIn) : IO Unit := do
+  let line ← h.getLine
+  if line.isEmpty then return ()
+  let line := if line.endsWith "\n" then (line.dropEnd 1).toString else line
+  match line.splitOn "\t" with
+  | ["INIT", ts] =>
+    traceLoop h out (decToks ts) none
+  | ["STEP", rule, kind, fx, se, di, rm, he] =>
+    traceLoop h out st (some (mkStep rule kind fx se di rm he))
+  | ["EDIT", a, b, ln, ts] =>
+    match cur with
+    | some s => traceLoop h out st (some (addEdit s a b ln ts))
+    | none => out.putStrLn "error EDIT without STEP"; traceLoop h out st cur
+  | ["AFTER", p, q, ts] =>
+    match cur with
+    | some s =>
+      let s := { s with pre := p.toNat!, suf := q.toNat!, mid := decToks ts }
+      let (o, after) := Trace.checkStep st s
+      let v := Verdict.verdicts st after s o
+      out.putStrLn ("R " ++ s.rule ++ " " ++ o.render ++ s!" c01={v.c01} c02={v.c02} c03={v.c03} c07={v.c07}")
+      out.flush
+      traceLoop h out after none
+    | none => out.putStrLn "error AFTER without STEP"; traceLoop h out st cur
+  | ["LEN"] =>
+    out.putStrLn s!"L {st.length}"; out.flush
+    traceLoop h out st cur
+  | _ =>
+    out.putStrLn ("error bad line " ++ line.take 40); out.flush
+    traceLoop h out st cur
+
+/-- lex mode: one string per line (code points joined by '.'), reply: the nine passes,
+    passes separated by '|', tokens by ' ' -/
+partial def lexLoop (h : IO.FS.Stream) (out : IO.FS.Stream) : IO Unit := do
+  let line ← h.getLine
+  if line.isEmpty then return ()
+  let line := if line.endsWith "\n" then (line.dropEnd 1).toString else line
+  let s := decStr line
+  let ps := Lex.passes Lex.pyTables s
+  out.putStrLn ("|".intercalate (ps.map fun p => " ".intercalate (p.map fun t => if t.isEmpty then "e" else encStr t)))
+  lexLoop h out
+
+def main (args : List String) : IO UInt32 := do
+  let stdin ← IO.getStdin
+  let stdout ← IO.getStdout
+  match args with
+  | ["trace"] => traceLoop stdin stdout [] none; return 0
+  | ["lex"] => lexLoop stdin stdout; stdout.flush; return 0
+  | _ => IO.eprintln "usage: driver <mode>"; return 2
